@@ -571,6 +571,63 @@ pub mod xl {
     pub const ACTIONS: &[(bool, u64)] = &[(false, 1), (false, 1)];
     pub const DESC: &str = "lifetime- and type-parameterised trait TL<'a, X> returning a reference into the value";
 }
+pub mod xa {
+    #![allow(unused_variables, unused_mut, clippy::all)]
+    use h_objbase::support::*;
+    use cglue::*;
+    #[cglue_trait]
+    pub trait TA {
+        type Item;
+        fn push_all(&mut self, items: &[Self::Item]) -> u64;
+        fn fill(&mut self, out: &mut [Self::Item]) -> u64;
+        fn push_opt(&mut self, item: Option<Self::Item>) -> u64;
+        fn push_res(&mut self, item: Result<Self::Item, u8>) -> u64;
+    }
+    impl TA for Imp {
+        type Item = u64;
+        fn push_all(&mut self, items: &[u64]) -> u64 {
+            seen(items.as_ptr());
+            self.enter(9131, items.dig());
+            for i in items { self.acc = self.acc.wrapping_mul(31).wrapping_add(*i); }
+            self.acc
+        }
+        fn fill(&mut self, out: &mut [u64]) -> u64 {
+            seen(out.as_ptr());
+            self.enter(9132, out.len() as u64);
+            for (k, o) in out.iter_mut().enumerate() { *o = self.acc.wrapping_add(k as u64); }
+            out.len() as u64
+        }
+        fn push_opt(&mut self, item: Option<u64>) -> u64 {
+            self.enter(9133, item.dig());
+            if let Some(i) = item { self.acc ^= i; }
+            self.acc
+        }
+        fn push_res(&mut self, item: Result<u64, u8>) -> u64 {
+            self.enter(9134, item.dig());
+            match item { Ok(i) => self.acc = self.acc.wrapping_add(i), Err(e) => self.acc = self.acc.wrapping_sub(e as u64) }
+            self.acc
+        }
+    }
+    pub fn call<T: TA<Item = u64> + Unpin>(t: &mut Option<T>, action: usize, sel: u64) -> Obs {
+        ptr_reset();
+        set_sel(sel);
+        let mut post = 0;
+        let ret = match action {
+            0 => { sent(WORDS2.as_ptr()); t.as_mut().unwrap().push_all(&WORDS2[..]) }
+            1 => { sent(WORDS2[2..].as_ptr()); t.as_mut().unwrap().push_all(&WORDS2[2..]) }
+            2 => { let mut buf = [1u64, 2, 3]; sent(buf.as_ptr()); let r = t.as_mut().unwrap().fill(&mut buf[..]); post = digest(&buf); r }
+            3 => t.as_mut().unwrap().push_opt(None),
+            4 => t.as_mut().unwrap().push_opt(Some(0)),
+            5 => t.as_mut().unwrap().push_opt(Some(u64::MAX)),
+            6 => t.as_mut().unwrap().push_res(Ok(7)),
+            7 => t.as_mut().unwrap().push_res(Err(3)),
+            _ => unreachable!(),
+        };
+        Obs { ret, post, ptr_ok: ptr_ok() }
+    }
+    pub const ACTIONS: &[(bool, u64)] = &[(false, 1), (false, 1), (false, 1), (false, 1), (false, 1), (false, 1), (false, 1), (false, 1)];
+    pub const DESC: &str = "plain associated type used as the element / payload of wrapped argument shapes (&[Item], &mut [Item], Option<Item>, Result<Item, u8>)";
+}
 pub mod xs {
     #![allow(unused_variables, unused_mut, clippy::all)]
     use h_objbase::support::*;
@@ -844,6 +901,7 @@ def main():
             reg.append("    v.push(h_objbase::case_mut!(xg, TG, 900010));")
             reg.append("    v.push(h_objbase::case_ref!(xl, TL, 900011));")
             reg.append("    v.push(h_objbase::case_mut!(xs, TS, 900012));")
+            reg.append("    v.push(h_objbase::case_mut!(xa, TA, 900015));")
             # by-reference containers are ambiguous for the fmt traits (`&T: Debug` as well): owned containers only
             reg.append("    v.push(h_objbase::case_own!(xf, Debug, 900013));")
             reg.append("    v.push(h_objbase::case_own!(xp, Display, 900014));")
